@@ -414,6 +414,50 @@ fn exec_encoders(l: &LinkScn, st: &mut Stats) -> Outcome {
         pos: out.len(),
         item: Item::Msg(vec![nones.min(255) as u8]),
     });
+    // the encoder is lazy, so an endless source (or one whose size hint is at the limits of usize)
+    // is a legal input: asking for the hint and taking a few bytes must not overflow anything
+    {
+        struct Hinted<'a> {
+            p: &'a [u8],
+            i: usize,
+            hint: (usize, Option<usize>),
+        }
+        impl<'a> Iterator for Hinted<'a> {
+            type Item = u8;
+            fn next(&mut self) -> Option<u8> {
+                let b = self.p.get(self.i % self.p.len().max(1)).copied().unwrap_or(0x5a);
+                self.i += 1;
+                Some(b)
+            }
+            fn size_hint(&self) -> (usize, Option<usize>) {
+                self.hint
+            }
+        }
+        for hint in [(usize::MAX, None), (usize::MAX - 3, Some(usize::MAX)), (0, Some(usize::MAX)), (usize::MAX / 2 + 1, None), (0, None)] {
+            let mut e = sml_rs::transport::encode_streaming(Hinted { p: payload, i: 0, hint });
+            let mut taken = 0usize;
+            for k in 0..(20 + payload.len().min(40)) {
+                let _ = e.size_hint();
+                if k % 3 == 0 {
+                    let _ = (&mut e).take(2).count();
+                    taken += 2;
+                } else if e.next().is_some() {
+                    taken += 1;
+                }
+            }
+            obs.push(Obs { pos: taken, item: Item::Nothing });
+        }
+        // and over the ordinary finite source: the hint is asked in every state
+        let mut e = sml_rs::transport::encode_streaming(payload.iter());
+        loop {
+            let _ = e.size_hint();
+            if e.next().is_none() {
+                let _ = e.size_hint();
+                break;
+            }
+        }
+        st.bump("probe", "size-hint-probed");
+    }
     // buffer encoder
     let armed = if l.alloc_fail > 0 && l.buf == BufKind::Vec {
         Some(crate::alloc::arm(l.alloc_fail))
